@@ -285,8 +285,16 @@ func (cl *CachedLocation) Get(ctx *Context, sys *System, name string, checkExist
 
 	// Remove from cache if location does not exist so the cache does not explode
 	if failed {
+		// Look again, now that we have the cache's lock: a
+		// concurrent request can have opened the location
+		// through this very entry since we let go of it, and a
+		// location that is in use must not leave the cache.
 		sys.CachedLocations.Lock()
-		delete(sys.CachedLocations.locs, name)
+		cl.Lock()
+		if cl.Location == nil && sys.CachedLocations.locs[name] == cl {
+			delete(sys.CachedLocations.locs, name)
+		}
+		cl.Unlock()
 		sys.CachedLocations.Unlock()
 	}
 
